@@ -6,7 +6,7 @@
 (* Exact rational geometry: an angle is a triple <<c, s, d>> with cos = c/d, sin = s/d (quarter  *)
 (* turns and Pythagorean angles), local cell-centre coordinates are kept in half units and every *)
 (* world coordinate is the integer numerator over Q = 2 * d_rot * d_dip:                         *)
-(*   centroids = R_z(rot) . R_x(dip) . (u, v, w) + origin        (grid2d.py:119-131,             *)
+(*   centroids = R_z(rot) . R_x(dip) . (u, v, w) + origin        (grid2d.py:124-137,             *)
 (*   block_model.py:82-99, octree.py:137-160; xy_/yz_rotation_matrix utils.py:568-597)           *)
 (* Box faces: in the exact case (rot = dip = 0: the code's arithmetic is exact) the faces lie    *)
 (* on the centre coordinates and half-way between them; otherwise only faces at least Q/10 (1/10 *)
@@ -134,14 +134,14 @@ KOf(g, i, j) == j * g.nu + i + 1
 Sel(g, cells, box, inv) ==
     LET n == Len(cells)
         in == [k \in 1..n |-> InBoxD(cells[k], box, Open)]
-        \* grid_object.py:149 utils.mask_by_extent(self.centroids, extent, inverse) ; Data.mask_by_extent
-        \* of CELL data uses the parent's centroids as well (data.py:251-252)
+        \* grid_object.py:150 utils.mask_by_extent(self.centroids, extent, inverse) ; Data.mask_by_extent
+        \* of CELL data uses the parent's centroids as well (data.py:252-253)
         mask == [k \in 1..n |-> in[k] # inv]
         \* grid_object.py:146 box_intersect(self.extent, extent) on the bounding box of the centres
         miss == ~Intersects(BBox(Range(cells)), box)
         any == \E k \in 1..n : mask[k]
         S == {k \in 1..n : mask[k]}
-        \* --- Grid2D.copy_from_extent, inverse = FALSE (grid2d.py:158-220) ---------------------------
+        \* --- Grid2D.copy_from_extent, inverse = FALSE (grid2d.py:140-221) ---------------------------
         \* C13: the smallest sub-grid covering the selected cells, values outside the box blanked
         i0 == SetMin({II(g, k) : k \in S})
         i1 == SetMax({II(g, k) : k \in S})
@@ -152,8 +152,8 @@ Sel(g, cells, box, inv) ==
                                LET k == KOf(g, i0 + ((m - 1) % (i1 - i0 + 1)), j0 + ((m - 1) \div (i1 - i0 + 1)))
                                IN [pos |-> k, src |-> IF mask[k] THEN k ELSE 0]]]
         \* as built (named deviation KronGaps): u_ind / v_ind = columns / rows holding a selected cell
-        \* (grid2d.py:163-164), u_count = sum(u_ind), v_count = sum(v_ind), origin moved to the first
-        \* such column / row (argmax, :172-175), values taken with np.kron(v_ind, u_ind) (:166) and
+        \* (grid2d.py:169-170), u_count = sum(u_ind), v_count = sum(v_ind) (:197-198), origin moved to the first
+        \* such column / row (argmax, :178-188), values taken with np.kron(v_ind, u_ind) (:172, data.py:103) and
         \* finally blanked by testing the NEW grid's centres (:213-219).  Equal to ideal unless a column
         \* or row between selected ones holds no selected cell (possible only for rotated grids).
         cols == SelectIdx([x \in 1..g.nu |-> \E k \in S : II(g, k) = x - 1], g.nu)
@@ -172,9 +172,9 @@ Sel(g, cells, box, inv) ==
         \* masks: None on a miss only (grid_object.py:146)
         code_none |-> miss,
         \* copies: block / octree: EntityContainer.copy_from_extent -> GridObject.copy(mask): same grid,
-        \* values outside the selection NaN (grid_object.py:100-105), None on a miss.
-        \* Grid2D: None when nothing is selected (grid2d.py:168); inverse keeps the whole grid and blanks
-        \* the values inside the box (:199, object_base.copy -> data.py:107-109), whole copy on a miss.
+        \* values outside the selection NaN (grid_object.py:97-105), None on a miss.
+        \* Grid2D: None when nothing is selected (grid2d.py:174); inverse keeps the whole grid and blanks
+        \* the values inside the box (:203, object_base.copy -> data.py:105-108), whole copy on a miss.
         copy_none |-> IF Kind = "grid2d" THEN ~any ELSE miss,
         copy |-> IF ~any THEN (IF Kind = "grid2d" THEN empty ELSE full)
                  ELSE IF Kind = "grid2d" /\ ~inv THEN sub ELSE full,
